@@ -32,6 +32,8 @@ THEOREMS = [
     "Pydjinni.Front.resolveStep_binds_lexical",
     "Pydjinni.Front.resolveStep_spec",
     "Pydjinni.Front.resolveLoop_spec",
+    "Pydjinni.Front.regs_walkContents",
+    "Pydjinni.Front.file_registers_iff",
 ]
 LEVEL = "proof"
 
